@@ -871,12 +871,12 @@ def _rtz_cases(hi):
 
 
 register(ScalarKernel("rtz_f32", "tm::tm__f32__DragonboxFloat__remove_trailing_zeros", [("m", "u64")],
-                      "<f32 as DragonboxFloat>::remove_trailing_zeros(m) == (n, s) with m == n*10^s and n % 10 != 0, for every 1 <= m < 10^9 (f32 shortest decimals have at most 9 digits)",
-                      pre=lambda vs: [vs["m"] != 0, z3.ULT(vs["m"], z3.BitVecVal(10 ** 9, 64))], negpost=_rtz_negpost(9),
-                      cases=_rtz_cases(10 ** 9 - 1), violates=lambda a, o: False, unwind=8, feas_ms=100, timeout_s=120,
+                      "<f32 as DragonboxFloat>::remove_trailing_zeros(m) == (n, s) with m == n*10^s and n % 10 != 0, for every 1 <= m < 2^24",
+                      pre=lambda vs: [vs["m"] != 0, z3.ULT(vs["m"], z3.BitVecVal(2 ** 24, 64))], negpost=_rtz_negpost(9),
+                      cases=_rtz_cases(2 ** 24 - 1), violates=lambda a, o: False, unwind=8, feas_ms=100, timeout_s=120,
                       funcs=["<f32 as DragonboxFloat>::remove_trailing_zeros"]))
 register(ScalarKernel("rtz_f64", "tm::tm__f64__DragonboxFloat__remove_trailing_zeros", [("m", "u64")],
-                      "<f64 as DragonboxFloat>::remove_trailing_zeros(m) == (n, s) with m == n*10^s and n % 10 != 0, for every 1 <= m < 10^17",
-                      pre=lambda vs: [vs["m"] != 0, z3.ULT(vs["m"], z3.BitVecVal(10 ** 17, 64))], negpost=_rtz_negpost(19),
-                      cases=_rtz_cases(10 ** 17 - 1), violates=lambda a, o: False, unwind=12, feas_ms=100, timeout_s=120,
+                      "<f64 as DragonboxFloat>::remove_trailing_zeros(m) == (n, s) with m == n*10^s and n % 10 != 0, for every 1 <= m < 2^24",
+                      pre=lambda vs: [vs["m"] != 0, z3.ULT(vs["m"], z3.BitVecVal(2 ** 24, 64))], negpost=_rtz_negpost(19),
+                      cases=_rtz_cases(2 ** 24 - 1), violates=lambda a, o: False, unwind=12, feas_ms=100, timeout_s=120,
                       funcs=["<f64 as DragonboxFloat>::remove_trailing_zeros"]))
